@@ -68,7 +68,7 @@ Qed.
 (* ---------------------------------------------------------------------------------------- *)
 
 Lemma format_input_idem : forall v, format_input (format_input v) = format_input v.
-Proof. intros v. destruct v as [| | | | | | | | |k n| | | |]; try reflexivity. destruct k; reflexivity. Qed.
+Proof. intros v. destruct v as [| | | | | | | | |k n| | | | |]; try reflexivity. destruct k; reflexivity. Qed.
 
 Definition fmt_res (r : outcome value * rstate) : outcome value * rstate :=
   match r with (Ok v, s) => (Ok (format_input v), s) | _ => r end.
@@ -254,6 +254,8 @@ Lemma eval_sel : forall a k name asrt st,
                | VMap m => Ok (match assoc name m with Some x => (if is_null x then VNull else x) | None => VNull end)
                | VTime _ => Panic
                | VOpaque _ => Unk
+               | VStruct _ fs =>
+                 match assoc name fs with Some x => Ok (if is_null x then VNull else x) | None => Panic end
                | _ => Ok VNull
                end, st1)
           | x => x
@@ -320,7 +322,7 @@ Lemma truthy_spec : forall v,
    (exists d, v = VNum d /\ (dec_cmp d dec_zero = 0 \/ is_nan d = true)) \/ v = VStr []).
 Proof.
   intros v. split.
-  - intros H. destruct v as [|b|d|s| | | | | | | | | |]; cbn in H; try discriminate H.
+  - intros H. destruct v as [|b|d|s| | | | | | | | | | |]; cbn in H; try discriminate H.
     + left. reflexivity.
     + destruct b; [discriminate H|]. right. right. left. reflexivity.
     + right. right. right. left. exists d. split; [reflexivity|].
@@ -772,7 +774,7 @@ Fixpoint all_dot (p : sexpr) : bool :=
 (* values built from maps, slices, null and scalars only: no time.Time, no other Go struct *)
 Fixpoint maps_only (v : value) : bool :=
   match v with
-  | VTime _ | VOpaque _ => false
+  | VTime _ | VOpaque _ | VStruct _ _ => false
   | VArr l => forallb maps_only l
   | VMap m => forallb (fun kv => maps_only (snd kv)) m
   | _ => true
@@ -789,7 +791,7 @@ Definition not_normalised (v : value) : bool :=
   end.
 
 Lemma maps_only_format : forall v, maps_only v = true -> maps_only (format_input v) = true.
-Proof. intros v H. destruct v as [| | | | | | | | |k n| | | |]; try exact H; try reflexivity. destruct k; reflexivity. Qed.
+Proof. intros v H. destruct v as [| | | | | | | | |k n| | | | |]; try exact H; try reflexivity. destruct k; reflexivity. Qed.
 
 Lemma maps_only_assoc : forall name m x,
   forallb (fun kv => maps_only (snd kv)) m = true -> assoc name m = Some x -> maps_only x = true.
@@ -828,7 +830,7 @@ Proof. repeat split. Qed.
 
 Lemma others_unchanged : forall v, not_normalised v = true -> format_input v = v.
 Proof.
-  intros v H. destruct v as [| | | | | | | | |k n| | | |]; try reflexivity; [|discriminate H].
+  intros v H. destruct v as [| | | | | | | | |k n| | | | |]; try reflexivity; [|discriminate H].
   destruct k; try reflexivity; discriminate H.
 Qed.
 
@@ -892,7 +894,8 @@ Lemma assert_errors_iff_null : forall a k name st v st1,
   (ev (SSel a k name true) st = (Err, st1) <-> is_null v = true).
 Proof.
   intros a k name st v st1 H. rewrite eval_sel, H.
-  destruct v; cbn; split; intros H0; try reflexivity; try discriminate H0.
+  destruct v as [| | | | | | | | | | | | | |id fs]; cbn; split; intros H0; try reflexivity; try discriminate H0.
+  destruct (assoc name fs) as [x|]; discriminate H0.
 Qed.
 
 (* the struct story: a member of a time.Time panics (recovered into an error by Resolve) *)
@@ -904,6 +907,73 @@ Proof.
   intros a k name asrt st t st1 H.
   assert (E : ev (SSel a k name asrt) st = (Panic, st1)) by (rewrite eval_sel, H; reflexivity).
   split; [exact E|]. unfold resolve_entry. rewrite E. reflexivity.
+Qed.
+
+(* a Go struct value: the selector reads the field of that name (exported fields, promoted ones
+   included, are the ones listed); a name that is not listed panics *)
+Lemma member_struct : forall a k name asrt st id fs st1,
+  ev a st = (Ok (VStruct id fs), st1) ->
+  ev (SSel a k name asrt) st =
+  match assoc name fs with
+  | Some x => (Ok (format_input (if is_null x then VNull else x)), st1)
+  | None => (Panic, st1)
+  end.
+Proof.
+  intros a k name asrt st id fs st1 H. rewrite eval_sel, H. cbn [is_null andb].
+  destruct (assoc name fs) as [x|]; reflexivity.
+Qed.
+
+Lemma select_struct_field : forall a k name asrt st id fs x st1,
+  ev a st = (Ok (VStruct id fs), st1) -> assoc name fs = Some x ->
+  ev (SSel a k name asrt) st = (Ok (format_input (if is_null x then VNull else x)), st1).
+Proof.
+  intros a k name asrt st id fs x st1 H Hx. rewrite (member_struct a k name asrt st id fs st1 H), Hx.
+  reflexivity.
+Qed.
+
+(* when the field holds a value that needs no normalisation (anything but a Go int, int32, int64 or
+   float64), the result is the field itself *)
+Lemma select_struct_field_plain : forall a k name asrt st id fs x st1,
+  ev a st = (Ok (VStruct id fs), st1) -> assoc name fs = Some x -> not_normalised x = true ->
+  ev (SSel a k name asrt) st = (Ok (if is_null x then VNull else x), st1).
+Proof.
+  intros a k name asrt st id fs x st1 H Hx Hn.
+  rewrite (select_struct_field a k name asrt st id fs x st1 H Hx).
+  destruct (is_null x); [reflexivity|]. rewrite (others_unchanged x Hn). reflexivity.
+Qed.
+
+Lemma select_struct_nil_field : forall a k name asrt st id fs st1,
+  ev a st = (Ok (VStruct id fs), st1) -> assoc name fs = Some VNilPtr ->
+  ev (SSel a k name asrt) st = (Ok VNull, st1).
+Proof.
+  intros a k name asrt st id fs st1 H Hx.
+  rewrite (select_struct_field a k name asrt st id fs VNilPtr st1 H Hx). reflexivity.
+Qed.
+
+Lemma select_struct_missing : forall a k name asrt st id fs st1,
+  ev a st = (Ok (VStruct id fs), st1) -> assoc name fs = None ->
+  ev (SSel a k name asrt) st = (Panic, st1) /\
+  resolve_entry hosts off (SSel a k name asrt) st = (Err, st1).
+Proof.
+  intros a k name asrt st id fs st1 H Hn.
+  assert (E : ev (SSel a k name asrt) st = (Panic, st1)).
+  { rewrite (member_struct a k name asrt st id fs st1 H), Hn. reflexivity. }
+  split; [exact E|]. unfold resolve_entry. rewrite E. reflexivity.
+Qed.
+
+(* so a selector on a struct panics exactly when the name is not one of its fields, and never
+   fails in any other way *)
+Lemma select_struct_panics_iff : forall a k name asrt st id fs st1,
+  ev a st = (Ok (VStruct id fs), st1) ->
+  (ev (SSel a k name asrt) st = (Panic, st1) <-> assoc name fs = None) /\
+  ((exists v, ev (SSel a k name asrt) st = (Ok v, st1)) <-> (exists x, assoc name fs = Some x)).
+Proof.
+  intros a k name asrt st id fs st1 H. rewrite (member_struct a k name asrt st id fs st1 H).
+  destruct (assoc name fs) as [x|]; split; split; intros H0; try reflexivity; try discriminate H0.
+  - destruct H0 as [v H0]. exists x. reflexivity.
+  - eexists. reflexivity.
+  - destruct H0 as [v H0]. discriminate H0.
+  - destruct H0 as [x H0]. discriminate H0.
 Qed.
 
 Lemma dotted_chain_strong : forall p, all_dot p = true ->
@@ -924,7 +994,7 @@ Proof.
   - cbn [all_dot] in Hp. destruct asrt; [discriminate Hp|].
     destruct (IHa Hp st Hst) as [v [Ev Hv]].
     rewrite eval_sel, Ev, andb_false_r.
-    destruct v as [| | | | | |m| | | | | | |]; try discriminate Hv;
+    destruct v as [| | | | | |m| | | | | | | |]; try discriminate Hv;
       try (exists VNull; split; reflexivity).
     cbn [maps_only] in Hv.
     destruct (assoc name m) as [x|] eqn:E; [|exists VNull; split; reflexivity].
